@@ -341,8 +341,8 @@ fn scenario(cfg: &Cfg, chooser: Chooser, faults: bool, crash_index: Option<usize
             }
         }
     }
-    if w.any_actor_panicked().is_some() {
-        problems.push(("actor-died".into(), "an actor thread died".into()));
+    if let Some(dead) = w.any_actor_panicked() {
+        problems.push(("actor-died".into(), format!("an actor thread died: node {dead} {}", w.death_reason(dead))));
     }
     let steps = w.steps;
     let digests = w.state_digests.iter().copied().collect();
